@@ -158,6 +158,8 @@ def run_direct(sc: Dict[str, Any], location: str, watchdog_s: float = 60.0) -> D
     """
     harness.install_hooks()
     install_points()
+    harness.CTX.current_root = location
+    BACKEND.current_root = location
     REC.reset()
     INJ.reset()
     _uid["n"] += 1
@@ -166,6 +168,7 @@ def run_direct(sc: Dict[str, Any], location: str, watchdog_s: float = 60.0) -> D
     script = {"default": {"reason": "Success", "duration": 1.0},
               "components": {obs: sc["obs_script"]}, "tail": {obs: sc.get("obs_tail", {"reason": "Success", "duration": 1.0})}}
     BACKEND.reset(script)
+    BACKEND.current_root = location
     res: Dict[str, Any] = {"build_error": None}
     try:
         exp = harness.build_experiment(make_flowir(sc, tag), location)
